@@ -24,8 +24,14 @@ pub open spec fn cr_status(r: Status, t0: &Tokenizer, c0: &CharRefTokenizer, q0:
     &&& c1.in_attr() == c0.in_attr()
     &&& match r {
         Status::Stuck => c1.abs() == c0.abs() && c1.wf() && q1.view().len() == 0 && q1.view() == q0.view(),
-        Status::Progress => c1.wf() && crsim(t1, c1.abs(), q1) == crsim(t0, c0.abs(), q0),
-        Status::Done(x) => x.num_chars <= 2 && crdone(t1, x, q1) == crsim(t0, c0.abs(), q0),
+        // progress (termination measure): a character was taken from the queue into the name / accumulator, or nothing was
+        // consumed and the sub-tokenizer moved down its state order
+        Status::Progress => c1.wf() && crsim(t1, c1.abs(), q1) == crsim(t0, c0.abs(), q0)
+            && ((q1.view().len() < q0.view().len() && q1.view().len() + c1.kret() <= q0.view().len() + c0.kret())
+                || (q1.view().len() == q0.view().len() && c1.kret() == c0.kret() && c1.crrank() < c0.crrank())),
+        // what is pushed back is at most what was held
+        Status::Done(x) => x.num_chars <= 2 && crdone(t1, x, q1) == crsim(t0, c0.abs(), q0)
+            && q1.view().len() <= q0.view().len() + c0.kret(),
     }
 }
 /// CR is read raw by the sub-tokenizer; the machine sees the normalised character
